@@ -95,7 +95,7 @@ def build_check(cid, cfg):
     rhash, objs = build_lib(cfg)
     d = os.path.join(BUILD, cfg)
     hsrc = [os.path.join(VERIF, spec['src']), os.path.join(VERIF, 'mc', 'mc.cpp')]
-    deps = hsrc + glob.glob(os.path.join(VERIF, 'mc', '*.hpp')) + glob.glob(os.path.join(VERIF, 'ref', '*.hpp'))
+    deps = hsrc + glob.glob(os.path.join(VERIF, 'mc', '*.hpp')) + glob.glob(os.path.join(VERIF, 'ref', '*.hpp')) + glob.glob(os.path.join(VERIF, 'checks', '*.hpp'))
     defs = spec.get('defs', [])
     hh = hashlib.sha256((rhash + sha_files(deps) + ' '.join(c['flags'] + defs)).encode()).hexdigest()
     exe = os.path.join(d, cid.lower())
